@@ -42,14 +42,6 @@ Theorem c22_heartbeat : forall sc, schema_ok sc = true -> forall now s,
 Proof. exact heartbeat_due. Qed.
 Print Assumptions c22_heartbeat.
 
-(* ... and below the threshold the tick sends no Heartbeat. *)
-Theorem c22_heartbeat_only : forall sc, schema_ok sc = true -> forall now s,
-  sess_ok s = true -> is_shutdown s = false -> 1 <= s_hb s ->
-  hb_due (s_hb s) now (s_last_sent s) = false ->
-  exists s' evs, heartbeat_service sc now s = (true, s', evs) /\ existsb is_hb (outs evs) = false.
-Proof. exact heartbeat_only. Qed.
-Print Assumptions c22_heartbeat_only.
-
 (* floor(now - last_recv) > H + H/5 and state <> test_request_sent  ->  TestRequest (TestReqID "TEST"),
    no Logout, state := test_request_sent; last_received is NOT touched (the root of F27). *)
 Theorem c22_testreq : forall sc, schema_ok sc = true -> forall now s,
@@ -64,13 +56,16 @@ Theorem c22_testreq : forall sc, schema_ok sc = true -> forall now s,
 Proof. exact testreq_due. Qed.
 Print Assumptions c22_testreq.
 
-(* A TestRequest goes out in no other situation. *)
-Theorem c22_testreq_only : forall sc, schema_ok sc = true -> forall now s,
+(* Conversely: below the threshold the tick sends no Heartbeat, and a TestRequest goes out in no situation
+   other than the one of c22_testreq. *)
+Theorem c22_only : forall sc, schema_ok sc = true -> forall now s,
   sess_ok s = true -> is_shutdown s = false -> 1 <= s_hb s ->
-  quiet_due (s_hb s) now (s_last_recv s) = false \/ s_state s = st_test_request_sent ->
-  exists s' evs, heartbeat_service sc now s = (true, s', evs) /\ existsb is_tr (outs evs) = false.
-Proof. exact testreq_only. Qed.
-Print Assumptions c22_testreq_only.
+  (hb_due (s_hb s) now (s_last_sent s) = false ->
+   exists s' evs, heartbeat_service sc now s = (true, s', evs) /\ existsb is_hb (outs evs) = false) /\
+  (quiet_due (s_hb s) now (s_last_recv s) = false \/ s_state s = st_test_request_sent ->
+   exists s' evs, heartbeat_service sc now s = (true, s', evs) /\ existsb is_tr (outs evs) = false).
+Proof. intros sc SOK now s OK LIVE H1. split; [apply heartbeat_only|apply testreq_only]; assumption. Qed.
+Print Assumptions c22_only.
 
 (* An inbound TestRequest that passes the session rules (enforce raises no exception) is answered, in the
    same call of process, by a Heartbeat carrying the same TestReqID; for every decoder. *)
@@ -108,17 +103,13 @@ Proof. exact P_process. Qed.
 Print Assumptions c22_inbound_invariant.
 
 (* For ALL timelines of ticks / receptions / sends (any instants, any messages, any decoder): the timestamp
-   the Heartbeat rule uses is the instant of the latest step that put bytes on the wire ... *)
-Theorem c22_last_sent_trace : forall sc decode fl ops s,
-  s_last_sent (tl_final sc decode fl s ops) = last_out_instant (s_last_sent s) (tl_run sc decode fl s ops).
-Proof. exact trace_last_sent. Qed.
-Print Assumptions c22_last_sent_trace.
-
-(* ... and the one the TestRequest/Logout rule uses is the instant of the latest reception. *)
-Theorem c22_last_recv_trace : forall sc decode fl ops s,
+   the Heartbeat rule uses is the instant of the latest step that put bytes on the wire, and the one the
+   TestRequest/Logout rule uses is the instant of the latest reception. *)
+Theorem c22_timestamps_trace : forall sc decode fl ops s,
+  s_last_sent (tl_final sc decode fl s ops) = last_out_instant (s_last_sent s) (tl_run sc decode fl s ops) /\
   s_last_recv (tl_final sc decode fl s ops) = last_in_instant (s_last_recv s) (tl_run sc decode fl s ops).
-Proof. exact trace_last_recv. Qed.
-Print Assumptions c22_last_recv_trace.
+Proof. intros. split; [apply trace_last_sent|apply trace_last_recv]. Qed.
+Print Assumptions c22_timestamps_trace.
 
 (* Trace form of the Heartbeat rule: in any timeline, a tick of a running session at which the observable
    silence on the outbound side has lasted >= H whole seconds starts with a Heartbeat. *)
@@ -164,30 +155,27 @@ Print Assumptions c22_trace_logout_partial.
 
 (* F27 (DESIGN section 5): _last_received is not touched when the TestRequest goes out, so the NEXT tick, one
    second later, sees the same condition in state test_request_sent and logs out: the peer gets one tick, not
-   another H + 20 %.  For every admissible schema: H = 30, TestRequest at T0+37 s, Logout at T0+38 s. *)
-Theorem c22_logout_refuted : forall sc, schema_ok sc = true ->
-  let s := demo_sess in
-  let t1 := (T0 + 37 * NS)%Z in
-  let t2 := (t1 + NS)%Z in
-  exists s1 e1 s2 e2,
-    heartbeat_service sc t1 s = (true, s1, e1) /\ existsb is_tr (outs e1) = true /\ existsb is_lo (outs e1) = false /\
-    heartbeat_service sc t2 s1 = (true, s2, e2) /\ existsb is_lo (outs e2) = true /\
-    s_state s2 = st_session_terminated /\
-    elapsed t2 t1 = 1%Z /\ period (s_hb s1) = 36 /\
-    has_want WLo (tick_wants (s_hb s1) true t2 (s_last_sent s1) (s_last_recv s1) t1) = false.
-Proof. exact logout_next_tick. Qed.
+   another H + 20 %.  (1) For every admissible schema: H = 30, TestRequest at T0+37 s, Logout at T0+38 s although
+   the property's rule (tick_wants) asks for no Logout.  (2) The same on whole histories with the oracle: an
+   initiator that never hears from its peer, ticks at +1 s and +2 s: the model's trace violates c22_ok at the
+   third step; with the second tick after more than the period (+38 s) the oracle has nothing to object. *)
+Theorem c22_logout_refuted :
+  (forall sc, schema_ok sc = true ->
+   let s := demo_sess in
+   let t1 := (T0 + 37 * NS)%Z in
+   let t2 := (t1 + NS)%Z in
+   exists s1 e1 s2 e2,
+     heartbeat_service sc t1 s = (true, s1, e1) /\ existsb is_tr (outs e1) = true /\ existsb is_lo (outs e1) = false /\
+     heartbeat_service sc t2 s1 = (true, s2, e2) /\ existsb is_lo (outs e2) = true /\
+     s_state s2 = st_session_terminated /\
+     elapsed t2 t1 = 1%Z /\ period (s_hb s1) = 36 /\
+     has_want WLo (tick_wants (s_hb s1) true t2 (s_last_sent s1) (s_last_recv s1) t1) = false) /\
+  (schema_ok demo_schema = true /\
+   c22_ok demo_f27_ops (run_history demo_schema demo_f27_ops) = false /\
+   c22_first_bad ost0 demo_f27_ops (run_history demo_schema demo_f27_ops) 0 = 2 /\
+   c22_ok demo_fine_ops (run_history demo_schema demo_fine_ops) = true).
+Proof. split; [exact logout_next_tick|vm_compute; repeat split]. Qed.
 Print Assumptions c22_logout_refuted.
-
-(* The same on whole histories with the oracle: an initiator that never hears from its peer, ticks at +1 s and
-   +2 s: the model's trace violates c22_ok at the third step; with the second tick after more than the period
-   (+38 s) the oracle has nothing to object. *)
-Theorem c22_oracle_refuted :
-  schema_ok demo_schema = true /\
-  c22_ok demo_f27_ops (run_history demo_schema demo_f27_ops) = false /\
-  c22_first_bad ost0 demo_f27_ops (run_history demo_schema demo_f27_ops) 0 = 2 /\
-  c22_ok demo_fine_ops (run_history demo_schema demo_fine_ops) = true.
-Proof. vm_compute. repeat split. Qed.
-Print Assumptions c22_oracle_refuted.
 
 (* The hypotheses are satisfiable by a non-trivial input: the demo schema is admissible, the demo session
    (continuous, H = 30, last sent/received at T0) meets sess_ok / running / H >= 1, at T0+30 s the Heartbeat is
